@@ -558,6 +558,42 @@ fn gen(rng: &mut Rng, n: usize, tier: &str) -> Vec<String> {
         }
         out.push(show_case(&Case { file, max_ck, ttl, ops }));
     }
+    // expiry family: keys with a TTL that are written, updated, and observed around their expiry instant
+    // (created_at + ttl, NOT refreshed by update), then checkpointed and restored: a snapshot must hold exactly
+    // the entries a `get` would still return at that moment
+    for _ in 0..n / 6 {
+        let file = rng.chance(5, 6);
+        let max_ck = *rng.pick(&[2usize, 3, 10]);
+        let ttl = if rng.chance(1, 3) { Some(*rng.pick(&[2u64, 4])) } else { None };
+        let mut ops = Vec::new();
+        let t = rng.range(2, 5);
+        ops.push(Op::PutTtl(0, rng.below(10) as usize, t));
+        if rng.chance(1, 2) {
+            ops.push(Op::Put(1, rng.below(10) as usize));
+        }
+        ops.push(Op::Advance(rng.range(1, t - 1)));
+        if rng.chance(3, 4) {
+            ops.push(Op::Update(0, rng.below(10) as usize));
+        }
+        // land just before, exactly at, or just after created_at + ttl
+        ops.push(Op::Advance(rng.range(0, 3)));
+        if rng.chance(1, 3) {
+            ops.push(Op::PutTtl(2, rng.below(10) as usize, rng.range(1, 3)));
+            ops.push(Op::Advance(rng.range(0, 2)));
+        }
+        ops.push(Op::Checkpoint);
+        ops.push(Op::Advance(rng.range(0, 4)));
+        if rng.chance(1, 2) {
+            ops.push(Op::Delete(1));
+        }
+        ops.push(Op::Restore(0));
+        if rng.chance(1, 2) {
+            ops.push(Op::Advance(rng.range(1, 6)));
+            ops.push(Op::Checkpoint);
+            ops.push(Op::Restore(1));
+        }
+        out.push(show_case(&Case { file, max_ck, ttl, ops }));
+    }
     out
 }
 
